@@ -6,9 +6,11 @@ import (
 	"fmt"
 	"net/url"
 	"reflect"
+	"regexp"
 	"strings"
 	"time"
 
+	xsd "git.sr.ht/~mariusor/go-xsd-duration"
 	"github.com/valyala/fastjson"
 )
 
@@ -141,9 +143,18 @@ func JSONGetTime(val *fastjson.Value, prop string) time.Time {
 	return t
 }
 
+// xsdDurationPattern matches the lexical form of xsd:duration values: -PnYnMnDTnHnMnS
+var xsdDurationPattern = regexp.MustCompile(`^-?P(\d+Y)?(\d+M)?(\d+D)?(T(\d+H)?(\d+M)?(\d+(\.\d+)?S)?)?$`)
+
 func JSONGetDuration(val *fastjson.Value, prop string) time.Duration {
 	if str := val.Get(prop).GetStringBytes(); len(str) > 0 {
-		// TODO(marius): this needs to be replaced to be compatible with xsd:duration
+		if xsdDurationPattern.Match(str) {
+			var d time.Duration
+			if err := xsd.Unmarshal(str, &d); err == nil {
+				return d
+			}
+		}
+		// NOTE(marius): fall back to Go's duration format for values written by older versions
 		d, _ := time.ParseDuration(string(str))
 		return d
 	}
